@@ -12,7 +12,7 @@ import itertools
 import common
 from common import Suite
 
-TRUSTED = ["C16: has_side_effect is examined by the position probe and the execution oracle; its Lean model is not built (the 35-clause port exists only as a validated Python reference)",
+TRUSTED = ["C16: has_side_effect is modelled on expressions and simple statements (suite sideeffect); If / For / def statements are outside that model",
            "C16: loop else-clauses and try/except are outside the skeleton fragment (the exporter refuses them); they are covered by the execution oracle only",
            "C16: 'calls nothing user-defined' is read syntactically (Call nodes); attribute access / subscripting / operators may dispatch to user code"]
 ASSUMPTIONS = ["skeleton abstraction: tests are constant-true / constant-false / unknown as judged by the real core.literal_value"]
@@ -315,9 +315,134 @@ def position_probe(ctx):
     return s
 
 
+class Skip(Exception):
+    pass
+
+
+def ctx_name(c):
+    return {"Load": "load", "Store": "store", "Del": "del"}[type(c).__name__]
+
+
+def exp_e(n):
+    """export an ast node into the model's expression language; node kinds the model does not have raise Skip
+    (statements other than Expr / Pass / single-target assignments) or become 'other' (what the real function answers True for)"""
+    if n is None:
+        raise Skip()
+    T = type(n).__name__
+    if T in ("Constant", "Pass"):
+        return ["const"]
+    if T in ("Yield", "YieldFrom", "Return", "Raise", "Continue", "Break", "Assert", "Import", "ImportFrom", "Await", "Delete", "Global", "Nonlocal"):
+        return ["other"]
+    if T == "Name":
+        return ["name", n.id, ctx_name(n.ctx)]
+    if T in ("List", "Set", "Tuple"):
+        return ["coll", [exp_e(x) for x in n.elts]]
+    if T == "Dict":
+        return ["coll", [exp_e(x) for x in list(n.keys) + list(n.values) if x is not None]]
+    if T == "Expr":
+        return exp_e(n.value)
+    if T == "UnaryOp":
+        return ["unary", exp_e(n.operand)]
+    if T == "BinOp":
+        return ["bin", exp_e(n.left), exp_e(n.right)]
+    if T == "Compare":
+        return ["nary", [exp_e(x) for x in [n.left] + n.comparators]]
+    if T == "BoolOp":
+        return ["nary", [exp_e(x) for x in n.values]]
+    if T == "Attribute":
+        return ["attribute", exp_e(n.value), n.attr, ctx_name(n.ctx)]
+    if T == "Subscript":
+        return ["subscript", exp_e(n.value), exp_e(n.slice), ctx_name(n.ctx)]
+    if T == "Slice":
+        return ["slice", [exp_e(x) for x in (n.lower, n.upper, n.step) if x is not None]]
+    if T in ("ListComp", "SetComp", "GeneratorExp", "DictComp"):
+        elts = [n.key, n.value] if T == "DictComp" else [n.elt]
+        return ["comp", [exp_e(x) for x in elts], [[exp_e(g.target), exp_e(g.iter), [exp_e(i) for i in g.ifs]] for g in n.generators]]
+    if T == "Call":
+        for x in ast.walk(n.func):  # the model's `other` carries no names: a callee hiding some is outside the model
+            if isinstance(x, (ast.Yield, ast.YieldFrom, ast.Await)) or (isinstance(x, ast.Lambda) and exp_e(x) == ["other"]):
+                raise Skip()
+        return ["call", exp_e(n.func), [exp_e(a) for a in n.args], [exp_e(k.value) for k in n.keywords]]
+    if T == "Starred":
+        return ["starred", exp_e(n.value)]
+    if T == "IfExp":
+        return ["ifexp", exp_e(n.test), exp_e(n.body), exp_e(n.orelse)]
+    if T == "NamedExpr":
+        return ["named", exp_e(n.target), exp_e(n.value)]
+    if T in ("Assign", "AugAssign", "AnnAssign"):
+        targets = n.targets if T == "Assign" else [n.target]
+        if len(targets) != 1 or n.value is None:
+            raise Skip()
+        return ["named", exp_e(targets[0]), exp_e(n.value)]
+    if T == "Lambda":
+        a = n.args
+        if a.posonlyargs or a.args or a.kwonlyargs or a.vararg or a.kwarg:
+            return ["other"]  # ast.arg nodes are not handled by the real function: it answers True
+        return ["lambda", [exp_e(x) for x in list(a.kw_defaults) + list(a.defaults) if x is not None], exp_e(n.body)]
+    if T == "JoinedStr":
+        return ["fstring", [exp_e(v) for v in n.values]]
+    if T == "FormattedValue":
+        return ["fstring", [exp_e(x) for x in (n.value, n.format_spec) if x is not None]]
+    raise Skip()
+
+
+SIDE_EXPRS = POSITIONS + ["''.join(join(x))", "', '.join(str(v) for v in xs)", "len(x) + abs(y)", "[v for v in xs if v]", "{k: v for k, v in pairs}", "a.b.c", "a.b(c)", "_ = f(x)", "_ = 3",
+                          "x = 3", "a[0] = 1", "_[0] = 1", "a.b = 2", "(lambda: 1)()", "(lambda q: q)(1)", "lambda d=g(1): d", "f'{x!r:>{w}}'", "x if y else z", "(y := 5)", "print(x)", "sorted(xs)",
+                          "[*xs, *ys]", "{**a}", "a[1:2:3]", "a[g(1):]", "not x", "x < y < z", "x and y or z", "str(x).upper()", "x.upper()", "' '.strip().upper()", "max(len(a), len(b))"]
+
+
+def sideeffect_suite(ctx):
+    from pyrefact import constants, core
+
+    s = Suite("sideeffect")
+    nodes = []
+    for expr in SIDE_EXPRS:
+        try:
+            tree = ast.parse(expr)
+        except SyntaxError:
+            continue
+        nodes += [n for n in ast.walk(tree) if isinstance(n, (ast.expr, ast.stmt))]
+    for (_sha, src, _f) in __import__("sweep").pick(__import__("sweep").generated_corpus(), ctx, 12) + __import__("sweep").pick(__import__("sweep").example_corpus(), ctx, 40):
+        try:
+            nodes += [n for n in ast.walk(ast.parse(src)) if isinstance(n, (ast.expr, ast.stmt))]
+        except SyntaxError:
+            pass
+    r = ctx.rng("sideeffect")
+    r.shuffle(nodes)
+    nodes = nodes[: ctx.n(4000, 40000)]
+    whitelists = [[], sorted(constants.SAFE_CALLABLES), ["print", "g", "join", "upper"]]
+    reqs, metas = [], []
+    for n in nodes:
+        try:
+            e = exp_e(n)
+        except Skip:
+            continue
+        except Exception:  # noqa: BLE001
+            continue
+        for w in whitelists:
+            reqs.append({"suite": "sideeffect", "e": e, "w": w})
+            metas.append((n, w))
+    answers = ctx.driver.ask(reqs)
+    for (n, w), ans in zip(metas, answers):
+        s.cases += 1
+        try:
+            real = bool(core.has_side_effect(n, frozenset(w)))
+        except Exception:  # noqa: BLE001
+            continue
+        s.count(type(n).__name__)
+        if ans.get("b") != real:
+            s.disagreements.append({"src": ast.unparse(n)[:200], "node": type(n).__name__, "whitelist": w[:6], "model": ans.get("b"), "real": real, "what": "has_side_effect differs from the model"})
+        if isinstance(n, (ast.Call, ast.ListComp, ast.SetComp, ast.GeneratorExp, ast.DictComp, ast.JoinedStr, ast.Subscript, ast.Lambda, ast.IfExp)):
+            s.nt([ast.dump(n)[:300], len(w)])
+    s.samples.append({"suite": "sideeffect", "expr": "[print(x) for x in (1, 2)]", "whitelist": [], "has_side_effect": True})
+    s.note = ("every expression / simple-statement node of 66 hand-written expressions (a call in every position, stores, lambdas, f-strings, slices) and of corpus programs x 3 whitelists "
+              "(empty, constants.SAFE_CALLABLES, a small one): core.has_side_effect vs the model; non-trivial = calls, comprehensions, f-strings, subscripts, lambdas, conditional expressions")
+    return s
+
+
 def suites(ctx):
     common.import_pyrefact()
-    return [blocking_suite(ctx), exec_suite(ctx), unreachable_oracle(ctx), position_probe(ctx)]
+    return [blocking_suite(ctx), exec_suite(ctx), sideeffect_suite(ctx), unreachable_oracle(ctx), position_probe(ctx)]
 
 
 def match_known(d, known):
